@@ -22,7 +22,7 @@ type mutant struct {
 	File   string // repo-relative
 	Old    string // must occur exactly once in the current file
 	New    string
-	Rule   string // expected rule
+	Rule   string // expected rule; "silent" marks a behaviour-preserving variant on which NO rule may fire
 	Constr string // substring expected in the construct
 }
 
@@ -42,8 +42,10 @@ func cmdSelftest(args []string) int {
 	for _, d := range res["details"].([]map[string]any) {
 		fmt.Printf("%-8s %-40s %s\n", d["outcome"], d["mutant"], d["note"])
 	}
-	fmt.Printf("selftest %s: killed %d / %d applicable\n", args[0], killed, total)
-	if killed < total {
+	benign, _ := res["benign_variants"].(int)
+	quiet, _ := res["benign_variants_quiet"].(int)
+	fmt.Printf("selftest %s: killed %d / %d applicable; quiet on %d / %d behaviour-preserving variants\n", args[0], killed, total, quiet, benign)
+	if killed < total || quiet < benign {
 		return 1
 	}
 	return 0
@@ -51,6 +53,15 @@ func cmdSelftest(args []string) int {
 
 func runSelftests(prop, repo, verif string) map[string]any {
 	ms := mutants[prop]
+	if f := os.Getenv("KVLINT_MUTANT_FILTER"); f != "" { // development aid: run only the mutants whose name contains f
+		var keep []mutant
+		for _, m := range ms {
+			if strings.Contains(m.Name, f) {
+				keep = append(keep, m)
+			}
+		}
+		ms = keep
+	}
 	exe, err := os.Executable()
 	if err != nil {
 		return map[string]any{"error": err.Error()}
@@ -103,6 +114,12 @@ func runSelftests(prop, repo, verif string) map[string]any {
 			}
 			if strings.Contains(string(out), "construct=load") || strings.Contains(string(out), "construct=analysis-panic") {
 				res.outcome, res.note = "invalid", "mutant does not type-check or analysis failed: "+firstLines(string(out), 6)
+			} else if m.Rule == "silent" {
+				if len(seen) == 0 {
+					res.outcome, res.note = "quiet", "behaviour-preserving variant: no rule fired"
+				} else {
+					res.outcome, res.note = "FALSE-ALARM", fmt.Sprintf("behaviour-preserving variant, but reported: %v", seen)
+				}
 			} else if hit {
 				res.outcome, res.note = "killed", m.Rule+" "+m.Constr
 			} else {
@@ -112,7 +129,7 @@ func runSelftests(prop, repo, verif string) map[string]any {
 		}(i, m)
 	}
 	wg.Wait()
-	killed, applicable, skipped := 0, 0, 0
+	killed, applicable, skipped, benign, quiet := 0, 0, 0, 0, 0
 	var details []map[string]any
 	for _, r := range results {
 		switch r.outcome {
@@ -121,13 +138,18 @@ func runSelftests(prop, repo, verif string) map[string]any {
 			applicable++
 		case "skipped":
 			skipped++
+		case "quiet":
+			benign++
+			quiet++
+		case "FALSE-ALARM":
+			benign++
 		default:
 			applicable++
 		}
 		details = append(details, map[string]any{"mutant": r.m.Name, "file": r.m.File, "expects": r.m.Rule + " " + r.m.Constr, "outcome": r.outcome, "note": r.note})
 	}
 	sort.Slice(details, func(i, j int) bool { return details[i]["mutant"].(string) < details[j]["mutant"].(string) })
-	return map[string]any{"mutants_total": len(ms), "mutants_applicable": applicable, "mutants_killed": killed, "mutants_skipped": skipped, "details": details,
+	return map[string]any{"mutants_total": len(ms), "mutants_applicable": applicable, "mutants_killed": killed, "mutants_skipped": skipped, "benign_variants": benign, "benign_variants_quiet": quiet, "details": details,
 		"meaning": "validation of the analyser itself on overlay rewrites of the current source; not property coverage"}
 }
 
